@@ -221,7 +221,7 @@ func TestHarness(t *testing.T) {
 			select {
 			case r := <-ch:
 				return r
-			case <-time.After(time.Duration(*fCaseTO) * time.Second):
+			case <-time.After(max(time.Duration(*fCaseTO)*time.Second, timeoutOf(c)+5*time.Second)):
 				hung.Add(1)
 				return []string{fmt.Sprintf("HANG the case did not finish within %d s of wall time", *fCaseTO)}
 			}
